@@ -16,9 +16,13 @@ package c16
 // starts a fresh probe and continues the same input with that operation
 // skipped. A CPU exceedance is only a violation after it has been reproduced
 // in a fresh probe. Once a hang key has been confirmed in a worker, later
-// operations found at 100 ms CPU inside the same function are aborted as
-// "presumed repeats" (counted, never reported as violations), which keeps the
-// cost of a defect that thousands of inputs reach bounded.
+// operations found at 30 ms CPU inside the same function are aborted as
+// "presumed repeats" (counted, never reported as violations); after a few of
+// them through one operation the worker suspends that operation (driver.go),
+// which keeps the cost of a defect that most inputs reach bounded.
+//
+// A probe started with the extra argument "bare" loads no seeds and serves the
+// single library calls of plan construction (guard.go, serveSetup below).
 //
 // The runner's own watchdog (CaseCPUSec, HangIsViolation) stays armed as a
 // backstop for anything that escapes the probe.
@@ -66,6 +70,8 @@ type probeReq struct {
 	StopAt   int            `json:"stop_at,omitempty"`  // >0: stop after this operation sequence number
 	Confirm  bool           `json:"confirm,omitempty"`  // no presumed-repeat abort
 	Known    []string       `json:"known,omitempty"`    // confirmed hang keys
+	// Suspended: operations that are not run any more (see driver.go)
+	Suspended []string `json:"suspended,omitempty"`
 	// Setup: one library call of plan construction, to be made under the monitor (guard.go); served by bare probes
 	Setup *setupCall `json:"setup,omitempty"`
 }
@@ -249,6 +255,8 @@ var (
 	statusMem  []byte
 	probeOut   *bufio.Writer
 	tripped    int32
+	// operations the worker has suspended (only read by the goroutine that runs the operations)
+	suspendedSet map[string]bool
 )
 
 func cpuNow() int64 {
@@ -407,6 +415,8 @@ func ProbeMain(args []string) {
 		os.Exit(3)
 	}
 	bare := len(args) > 3 && args[3] == "bare"
+	// no parser recurses: an unbounded recursion should die after 64 MiB of stack, not after copying its way up to 1 GiB
+	debug.SetMaxStack(64 << 20)
 	if bare {
 		// the parent process has no address space limit; the workers' one is inherited anyway
 		lim := uint64(3072) << 20
@@ -466,6 +476,10 @@ func serve(req *probeReq) *probeResp {
 		known[k] = true
 	}
 	monKnown.Store(known)
+	suspendedSet = map[string]bool{}
+	for _, o := range req.Suspended {
+		suspendedSet[o] = true
+	}
 	if req.Confirm {
 		atomic.StoreInt32(&monConfirm, 1)
 	} else {
